@@ -124,7 +124,7 @@ func runFree(jobs []freeJob) (map[string]freeRes, error) {
 		timer := time.AfterFunc(15*time.Minute, func() { cmd.Process.Kill() })
 		sc := bufio.NewScanner(stdout)
 		sc.Buffer(make([]byte, 1<<20), 1<<26)
-		pending, done, ndone := "", false, 0
+		pending, last, done, ndone := "", "", false, 0
 		for sc.Scan() {
 			var r freeRes
 			if json.Unmarshal(sc.Bytes(), &r) != nil {
@@ -135,7 +135,7 @@ func runFree(jobs []freeJob) (map[string]freeRes, error) {
 				pending = r.Key
 			case "res":
 				out[r.Key] = r
-				pending = ""
+				pending, last = "", r.Key
 				ndone++
 			case "done":
 				done = true
@@ -150,12 +150,19 @@ func runFree(jobs []freeJob) (map[string]freeRes, error) {
 		if done {
 			return out, nil
 		}
-		if pending == "" {
-			return nil, fmt.Errorf("child died outside a query: %.600s", stderr.String())
-		}
 		msg := stderr.String()
 		if i := strings.Index(msg, "\n"); i > 0 {
 			msg = msg[:i]
+		}
+		if pending == "" {
+			// the process died between two queries: goroutines of the query that had just
+			// delivered its result were still running
+			if last == "" {
+				return nil, fmt.Errorf("child died before the first query: %.600s", stderr.String())
+			}
+			out[last] = freeRes{Ev: "res", Key: last, Crash: true, Msg: msg}
+			rest = rest[ndone:]
+			continue
 		}
 		out[pending] = freeRes{Ev: "res", Key: pending, Crash: true, Msg: msg}
 		rest = rest[ndone+1:]
